@@ -3,6 +3,7 @@ use std::collections::{BTreeMap, btree_map::Entry};
 use proc_macro2::TokenStream;
 use quote::{ToTokens, quote};
 
+use super::Visibility;
 use crate::generator::ast::{RegexKey, RustType, ValidationAttribute, constants::HttpHeaderRef, tokens::ConstToken};
 
 #[derive(Clone, Debug)]
@@ -85,18 +86,29 @@ impl ToTokens for RegexConstantsResult {
 }
 
 #[derive(Clone, Debug, Default)]
-pub(crate) struct HeaderConstantsFragment(Vec<HttpHeaderRef>);
+pub(crate) struct HeaderConstantsFragment(Vec<HttpHeaderRef>, Visibility);
 
 impl HeaderConstantsFragment {
   pub(crate) fn new(headers: impl Into<Vec<HttpHeaderRef>>) -> Self {
-    Self(headers.into())
+    Self(headers.into(), Visibility::default())
+  }
+
+  /// Emits the constants with the requested item visibility instead of `pub`.
+  pub(crate) fn with_visibility(mut self, visibility: Visibility) -> Self {
+    self.1 = visibility;
+    self
   }
 }
 
 impl ToTokens for HeaderConstantsFragment {
   fn to_tokens(&self, tokens: &mut TokenStream) {
+    let vis = self.1.to_tokens();
     for header in &self.0 {
-      header.to_tokens(tokens);
+      let const_token = &header.const_token;
+      let header_name = &header.header_name;
+      tokens.extend(quote! {
+        #vis const #const_token: http::HeaderName = http::HeaderName::from_static(#header_name);
+      });
     }
   }
 }
